@@ -760,6 +760,8 @@ def gen_table(rng, unions: bool = True, inherit: bool = True) -> list[NCls]:
                      fon=fon, fba=fba, fdl=fdl, fcx=fcx, lazy=mixin and rng.random() < 0.2, cfg_style=gen_cfg_style(rng))
         later = list(range(cid + 1, n))
         parent = rng.choice(later) if (inherit and later and rng.random() < 0.3) else None
+        if parent is not None and len(table[parent].fields) > len(NAMES) - 3:
+            parent = None                                # no free field names left for a further subclass
         inherited: tuple = ()
         own_cfg, cfg_owner = True, cid
         if parent is not None:
@@ -771,7 +773,7 @@ def gen_table(rng, unions: bool = True, inherit: bool = True) -> list[NCls]:
                 o = replace(o, fon=o.fon or pc.o.fon, fba=o.fba or pc.o.fba, fdl=o.fdl or pc.o.fdl, fcx=o.fcx or pc.o.fcx,
                             lazy=o.lazy and mixin)
         taken = {f.name for f in inherited}
-        names = rng.sample([x for x in NAMES if x not in taken], rng.randint(1, 3 if inherited else 4))
+        names = rng.sample([x for x in NAMES if x not in taken], rng.randint(1, 3 if inherited else 4))   # >= 3 names are free
         aliases = rng.sample(ALIASES, len(ALIASES))
         fields = []
         for i, nm in enumerate(names):
